@@ -26,6 +26,13 @@ def plain_cases(chk):
     # OP_CODESEPARATOR executed in a plain (legacy) script: allowed once CONST_SCRIPTCODE is removed from the flags
     out.append(("codesep-legacy", bytes([O["1"], O["CODESEPARATOR"], O["2"], O["3"], O["ADD"], O["5"], O["EQUALVERIFY"]]), [], [f for f in STANDARD if f != "CONST_SCRIPTCODE"]))
     out.append(("codesep-twice", bytes([O["CODESEPARATOR"], O["1"], O["CODESEPARATOR"], O["DROP"], O["1"]]), [], [f for f in STANDARD if f != "CONST_SCRIPTCODE"]))
+    # every opcode that may appear in a branch that is not taken (all but VERIF / VERNOTIF and the disabled ones), so that each one's listed name
+    # is compared; the reserved ones (0x50, 0x89, 0x8a) and the upgradable NOPs included
+    skip = {0x65, 0x66, 0x7e, 0x7f, 0x80, 0x81, 0x83, 0x84, 0x85, 0x86, 0x8d, 0x8e, 0x95, 0x96, 0x97, 0x98, 0x99, 0x63, 0x64, 0x67, 0x68, 0xab}
+    ops_all = [o for o in range(0x4f, 0xbb) if o not in skip]
+    for k in range(0, len(ops_all), 30):
+        out.append(("names%d" % k, b"\x00" + bytes([O["IF"]]) + bytes(ops_all[k:k + 30]) + bytes([O["ENDIF"], O["1"]]), [], []))
+    out.append(("reserved", bytes([0x00, O["IF"], 0x50, O["ENDIF"], 0x00, O["NOTIF"], 0x51, O["ELSE"], 0x89, 0x8a, O["ENDIF"]]), [], []))
     out.append(("pushforms", b"\x00" + G.push(b"\x01\x02") + G.push(b"", 1) + G.push(b"\x07" * 76) + b"\x4f\x60\x61" + G.push(b"\x09", 2) + bytes([O["2DROP"]]) * 3, [], []))
     for i in range(8 if chk.tier == "quick" else 60):
         g = G.LongGen(rng, risk=0.0)
@@ -49,10 +56,13 @@ def run(chk):
     # plain scripts
     for name, script, stack, fl in plain_cases(chk):
         ops = len(checklib.script_ops(script))
-        for rep in range(3 if quick else 7):
+        for rep in range(4 if quick else 8):
             n += 1
             # rep 0: straight through; rep 1: walk - forward k steps, all the way back, forward again, for growing k (undoes every operation once)
-            if rep == 1:
+            if rep == 3:
+                # exec between steps and rewinds: the position marker and the listing do not move with it
+                cmds = ["step", "step", "exec OP_7", "rewind", "step", "exec OP_DROP", "step", "exec OP_1 OP_2", "rewind", "rewind", "exec OP_2DROP", "step"] + ["step"] * ops
+            elif rep == 1:
                 cmds = []
                 for k in range(1, min(ops, 10) + 2):
                     cmds += ["step"] * k + ["rewind"] * k
